@@ -393,7 +393,8 @@ def prefix_cases(rng, n):
         def rta(file, max_len):
             r = real_rta(file, max_len); state["pos"] = file.tell(); return r
         def conv(headers, data, result):
-            i = offset0 + len(data) - state["pos"]
+            # (a variant that never calls read_to_after_ascii_byte skipped the boundary search: reported below)
+            i = offset0 + len(data) - (state["pos"] if state["pos"] is not None else offset0 + len(data))
             b, sc, u = script[min(max(i, 0), len(script) - 1)]
             result["encoding"] = "utf-8" if u else "latin-1"
             if b:
@@ -405,7 +406,12 @@ def prefix_cases(rng, n):
             out = E.convert_file_prefix_to_utf8({}, f, res, prefix_len=prefix_len, read_to_ascii_len=ascii_len)
         exc = res.get("bozo_exception")
         score = 20 if isinstance(exc, E.NonXMLContentType) else 10 if isinstance(exc, E.CharacterEncodingOverride) else 0
-        lines.append("stream retry %d %d %d %s" % (offset0, state["pos"], total, ";".join("%d,%d,%d" % (b, sc, u) for b, sc, u in script)))
+        if state["pos"] is None and total - offset0 > 0:
+            # the real loop never looked for an ASCII byte after the prefix although there was something to read: not the modelled search
+            lines.append("stream retry %d %d %d %s" % (offset0, f.tell(), total, ";".join("%d,%d,%d" % (b, sc, u) for b, sc, u in script)))
+            exp.append("boundary-search-skipped")
+            continue
+        lines.append("stream retry %d %d %d %s" % (offset0, state["pos"] if state["pos"] is not None else f.tell(), total, ";".join("%d,%d,%d" % (b, sc, u) for b, sc, u in script)))
         exp.append("%d %d %d %d %d" % (f.tell(), bool(res.get("bozo")), score, res["encoding"].startswith("utf-"), len(out)))
     return lines, exp
 
